@@ -159,6 +159,25 @@ Section World.
        ca := ca s; sa := sa s;
        sreg := sreg_add_all o ids (sreg s); dreg := dreg s |}.
 
+  (* ---- for the record: the static bookkeeping before the repair (scenario.py at df37eef, use_center_only=False):
+     assign_static_obstacle stored the shape lanelets but registered the centre lanelets, and
+     _remove_static_obstacle_from_lanelets used set.remove on every stored shape lanelet *)
+  Definition assign_static_orig (o : Z) (s : st) : st :=
+    let c := cin W o (t0 W o) in
+    {| statics := statics s; dynamics := dynamics s;
+       ic := upd (ic s) o (Some c); ish := upd (ish s) o (Some (sm W o (t0 W o)));
+       ca := ca s; sa := sa s; sreg := sreg_add_all o c (sreg s); dreg := dreg s |}.
+  Fixpoint sreg_remove_all (o : Z) (ids : list Z) (sr : Z -> list Z) : (Z -> list Z) * outcome :=
+    match ids with
+    | [] => (sr, Done)
+    | l :: r => if memZ o (sr l) then sreg_remove_all o r (sreg_discard o sr l) else (sr, Raised KeyError)
+    end.
+  Definition remove_static_orig (o : Z) (s : st) : st * outcome :=
+    match ish s o, ic s o with
+    | Some ids, Some _ => let (sr, out) := sreg_remove_all o ids (sreg s) in (with_regs s sr (dreg s), out)
+    | _, _ => (s, Done)
+    end.
+
   (* assign_dynamic_obstacle_shape_at_time; returns the state and whether it raised.
      The trajectory of a prediction starts at t0 + 1; a time step after the final or (repaired) before the
      initial time step is skipped (return False). *)
